@@ -418,6 +418,8 @@ def check(model, rep, tier):
         if gd != 'is_autograph_strict_conversion_mode()':
           ok = False
           facts['unguarded_raise'] = gd
+  from sa.props import C10 as _c10
+  _c10.conversion_try_rule(model, rep, 'CALL-FALLBACK')
   rep.check(ok, 'CALL-FALLBACK', '%s:conversion-try' % cc.site,
             'a failure of the conversion must be caught (except Exception) and, '
             'outside strict mode, answered by `return _fall_back_unconverted(f, '
@@ -547,6 +549,9 @@ def check(model, rep, tier):
             '-- Mine().update called from converted code')
 
   # ---------------------------------------------------------------- dependencies
+  rep.depends('C14', ['BI-TABLE'],
+              'the builtin row of the policy substitutes a callable only when it '
+              '*is* one of the supported builtins')
   rep.depends('C10', ['CACHE-ALLOWLIST'],
               'the first policy row is the negative cache: it must identify the '
               'callable, and remember only decisions that depend on it')
